@@ -75,30 +75,38 @@ def ignoreSpace (bits : Nat) : Bool := bits / 4 % 2 == 1
 def ignoreLinebreak (bits : Nat) : Bool := bits / 2 % 2 == 1
 def ignoreComment (bits : Nat) : Bool := bits % 2 == 1
 
-/-! ## Character classes -/
-def codes (s : String) : List Nat := s.toList.map Char.toNat
+/-! ## Character classes
 
-def isBlank (c : Nat) : Bool := c == ' '.toNat || c == '\n'.toNat
-def isDigit (c : Nat) : Bool := decide ('0'.toNat ≤ c) && decide (c ≤ '9'.toNat)
-def isBit (c : Nat) : Bool := c == '0'.toNat || c == '1'.toNat
-def isHexDigit (c : Nat) : Bool :=
-  isDigit c || (decide ('A'.toNat ≤ c) && decide (c ≤ 'F'.toNat)) || (decide ('a'.toNat ≤ c) && decide (c ≤ 'f'.toNat))
-def isBracket (c : Nat) : Bool := (codes "()[]").contains c
-def isQuote (c : Nat) : Bool := (codes "\"'`").contains c
+Character codes are compared with the kernel-accelerated `Nat.beq` / `Nat.ble` (the proofs evaluate the specification
+on every cell of every table inside the kernel). -/
+
+/-- the code `c` is the character `ch` -/
+def isCh (c : Nat) (ch : Char) : Bool := Nat.beq c ch.toNat
+@[inherit_doc] infix:50 " =ᶜ " => isCh
+def oneOf (cs : List Char) (c : Nat) : Bool := cs.any (isCh c)
+def between (lo hi : Char) (c : Nat) : Bool := Nat.ble lo.toNat c && Nat.ble c hi.toNat
+
+def isBlank (c : Nat) : Bool := c =ᶜ ' ' || c =ᶜ '\n'
+def isDigit (c : Nat) : Bool := between '0' '9' c
+def isBit (c : Nat) : Bool := c =ᶜ '0' || c =ᶜ '1'
+def isHexDigit (c : Nat) : Bool := isDigit c || between 'A' 'F' c || between 'a' 'f' c
+def isBracket (c : Nat) : Bool := oneOf ['(', ')', '[', ']'] c
+def isQuote (c : Nat) : Bool := oneOf ['"', '\'', '`'] c
 /-- every character that is, or begins, an operator or a punctuation token -/
-def isOpChar (c : Nat) : Bool := (codes "!&-/<>|~*^,;=+.%").contains c
+def isOpChar (c : Nat) : Bool := oneOf ['!', '&', '-', '/', '<', '>', '|', '~', '*', '^', ',', ';', '=', '+', '.', '%'] c
 /-- the characters that cannot be part of a bare word or number: whatever begins another kind of token or a gap
 (blank, bracket, quote, operator / punctuation, `#` comment) -/
-def isWordEnd (c : Nat) : Bool := isBlank c || isBracket c || isQuote c || isOpChar c || c == '#'.toNat
-def isBitPrefix (c : Nat) : Bool := c == 'b'.toNat || c == 'B'.toNat
-def isHexPrefix (c : Nat) : Bool := c == 'x'.toNat || c == 'X'.toNat
+def isWordEnd (c : Nat) : Bool := isBlank c || isBracket c || isQuote c || isOpChar c || c =ᶜ '#'
+def isBitPrefix (c : Nat) : Bool := c =ᶜ 'b' || c =ᶜ 'B'
+def isHexPrefix (c : Nat) : Bool := c =ᶜ 'x' || c =ᶜ 'X'
 
 /-- The grammar only distinguishes the line break and the printable ASCII characters; every other character (control
 characters, everything non-ASCII) is an ordinary word character, and all of them are treated alike. -/
 def ascii : List Nat := 10 :: List.range' 32 95
+def isAscii (c : Nat) : Bool := Nat.beq c 10 || (Nat.ble 32 c && Nat.ble c 126)
 /-- the representative of "every other character" -/
 def other : Nat := 128
-def norm (c : Nat) : Nat := if ascii.contains c then c else other
+def norm (c : Nat) : Nat := if isAscii c then c else other
 /-- pseudo character code of the end of the text (one past the last code point) -/
 def endCode : Nat := 0x110000
 
@@ -111,25 +119,25 @@ opens a line comment; `! & - / < > |` may begin a multi-character operator (or `
 deferred; every other operator character is "single-character punctuation"; `0` may begin `0x…` / `0b…`; another digit
 begins an integer; `b`/`B`, `x`/`X` may begin `b'01'` / `x'1F'`; anything else begins a word. -/
 def wait (bits c : Nat) : Op :=
-  if c == ' '.toNat then (if ignoreSpace bits then skip else emitStay mSpace)
-  else if c == '\n'.toNat then (if ignoreLinebreak bits then skip else emitStay mSpace)
-  else if c == '('.toNat then openParen
-  else if c == ')'.toNat then closeParen
-  else if c == '['.toNat then openSlice
-  else if c == ']'.toNat then closeSlice
-  else if c == '"'.toNat then addTo .IN_DOUBLE_QUOTE
-  else if c == '\''.toNat then addTo .IN_SINGLE_QUOTE
-  else if c == '`'.toNat then addTo .IN_BACK_QUOTE
-  else if c == '#'.toNat then addTo .IN_EXPLAIN_1
-  else if c == '!'.toNat then addTo .AFTER_21
-  else if c == '&'.toNat then addTo .AFTER_26
-  else if c == '-'.toNat then addTo .AFTER_2D
-  else if c == '/'.toNat then addTo .AFTER_2F
-  else if c == '<'.toNat then addTo .AFTER_3C
-  else if c == '>'.toNat then addTo .AFTER_3E
-  else if c == '|'.toNat then addTo .AFTER_7C
+  if c =ᶜ ' ' then (if ignoreSpace bits then skip else emitStay mSpace)
+  else if c =ᶜ '\n' then (if ignoreLinebreak bits then skip else emitStay mSpace)
+  else if c =ᶜ '(' then openParen
+  else if c =ᶜ ')' then closeParen
+  else if c =ᶜ '[' then openSlice
+  else if c =ᶜ ']' then closeSlice
+  else if c =ᶜ '"' then addTo .IN_DOUBLE_QUOTE
+  else if c =ᶜ '\'' then addTo .IN_SINGLE_QUOTE
+  else if c =ᶜ '`' then addTo .IN_BACK_QUOTE
+  else if c =ᶜ '#' then addTo .IN_EXPLAIN_1
+  else if c =ᶜ '!' then addTo .AFTER_21
+  else if c =ᶜ '&' then addTo .AFTER_26
+  else if c =ᶜ '-' then addTo .AFTER_2D
+  else if c =ᶜ '/' then addTo .AFTER_2F
+  else if c =ᶜ '<' then addTo .AFTER_3C
+  else if c =ᶜ '>' then addTo .AFTER_3E
+  else if c =ᶜ '|' then addTo .AFTER_7C
   else if isOpChar c then emitStay mNone
-  else if c == '0'.toNat then addTo .AFTER_0
+  else if c =ᶜ '0' then addTo .AFTER_0
   else if isDigit c then addTo .IN_INT
   else if isBitPrefix c then addTo .AFTER_B
   else if isHexPrefix c then addTo .AFTER_X
@@ -139,8 +147,8 @@ def wait (bits c : Nat) : Op :=
 and single-character punctuation", maximal munch: `longer` lists the characters that make a longer operator (or a
 comment opener) together with what they do; any other character leaves the shorter operator as a token of its own and
 is read again. -/
-def afterOp (longer : List (Nat × Op)) (c : Nat) : Op :=
-  match longer.find? (fun e => e.1 == c) with
+def afterOp (longer : List (Char × Op)) (c : Nat) : Op :=
+  match longer.find? (fun e => c =ᶜ e.1) with
   | some e => e.2
   | none => emitBefore mNone
 
@@ -148,13 +156,13 @@ def afterOp (longer : List (Nat × Op)) (c : Nat) : Op :=
 character is read again) -/
 def inInt (c : Nat) : Op :=
   if isDigit c then addTo .IN_INT
-  else if c == '.'.toNat then addTo .IN_FLOAT
+  else if c =ᶜ '.' then addTo .IN_FLOAT
   else emitBefore mInt
 
 /-- after a leading `0`: "hex / bit literals in all spellings" — `0x1F`, `0b01`; otherwise as in an integer -/
 def afterZero (c : Nat) : Op :=
-  if c == 'x'.toNat then addTo .IN_HEX_LITERAL_AFTER_0X
-  else if c == 'b'.toNat then addTo .IN_BIT_LITERAL_AFTER_0B
+  if c =ᶜ 'x' then addTo .IN_HEX_LITERAL_AFTER_0X
+  else if c =ᶜ 'b' then addTo .IN_BIT_LITERAL_AFTER_0B
   else inInt c
 
 /-- "decimal literals": digits continue, anything else ends the literal -/
@@ -167,47 +175,47 @@ def inBit0b (c : Nat) : Op := if isBit c then addTo .IN_BIT_LITERAL_AFTER_0B els
 /-- after `b`/`B` (resp. `x`/`X`): a quote opens `b'01'` / `b"01"` (resp. `x'1F'` / `X"1F"`); a character that ends a
 word leaves the one-letter NAME; anything else continues a word -/
 def afterPrefix (dq sq : S) (c : Nat) : Op :=
-  if c == '"'.toNat then addTo dq
-  else if c == '\''.toNat then addTo sq
+  if c =ᶜ '"' then addTo dq
+  else if c =ᶜ '\'' then addTo sq
   else if isWordEnd c then emitBefore mName
   else addTo .IN_WORD
 
 /-- inside `x'…'` / `b'…'`: the closing quote completes the literal, a digit of the base continues it, everything
 else is malformed ("unterminated strings … are rejected") -/
-def inQuotedNum (self : S) (q : Nat) (digit : Nat → Bool) (marks : Nat) (c : Nat) : Op :=
-  if c == q then emitWith marks
+def inQuotedNum (self : S) (q : Char) (digit : Nat → Bool) (marks : Nat) (c : Nat) : Op :=
+  if c =ᶜ q then emitWith marks
   else if digit c then addTo self
   else reject
 
 /-- "quoted strings with doubled-quote and backslash escapes": inside the string the quote character may end it (or
 be the first half of a doubled quote: decided by the next character), a backslash takes the next character with it,
 anything else is carried verbatim -/
-def inString (self afterQuote afterBackslash : S) (q : Nat) (c : Nat) : Op :=
-  if c == q then addTo afterQuote
-  else if c == '\\'.toNat then addTo afterBackslash
+def inString (self afterQuote afterBackslash : S) (q : Char) (c : Nat) : Op :=
+  if c =ᶜ q then addTo afterQuote
+  else if c =ᶜ '\\' then addTo afterBackslash
   else addTo self
 
 /-- after a quote inside a string: a second quote is the doubled-quote escape, anything else means the string was
 complete — a LITERAL token — and is read again -/
-def afterQuote (inside : S) (q : Nat) (c : Nat) : Op :=
-  if c == q then addTo inside else emitBefore mString
+def afterQuote (inside : S) (q : Char) (c : Nat) : Op :=
+  if c =ᶜ q then addTo inside else emitBefore mString
 
 /-- "back-quoted names": everything up to the next back-quote, a NAME -/
-def inBackQuote (c : Nat) : Op := if c == '`'.toNat then emitWith mName else addTo .IN_BACK_QUOTE
+def inBackQuote (c : Nat) : Op := if c =ᶜ '`' then emitWith mName else addTo .IN_BACK_QUOTE
 
 /-- `#` / `--` comment: runs to the line break, which is not part of it; "comments … removed" when the option says so,
 else one COMMENT token -/
 def inLineComment (bits c : Nat) : Op :=
-  if c == '\n'.toNat then (if ignoreComment bits then dropBefore else emitBefore mComment) else addTo .IN_EXPLAIN_1
+  if c =ᶜ '\n' then (if ignoreComment bits then dropBefore else emitBefore mComment) else addTo .IN_EXPLAIN_1
 
 /-- `/* … */` comment body: a star may begin the terminator -/
-def inBlockComment (c : Nat) : Op := if c == '*'.toNat then addTo .IN_EXPLAIN_2_AFTER_2A else addTo .IN_EXPLAIN_2
+def inBlockComment (c : Nat) : Op := if c =ᶜ '*' then addTo .IN_EXPLAIN_2_AFTER_2A else addTo .IN_EXPLAIN_2
 
 /-- `/* … *` : `/` terminates the comment (removed or one COMMENT token); a further `*` may still begin the terminator
 (`/***/`, `/* a **/`); anything else is comment body again -/
 def inBlockCommentStar (bits c : Nat) : Op :=
-  if c == '/'.toNat then (if ignoreComment bits then skipWith else emitWith mComment)
-  else if c == '*'.toNat then addTo .IN_EXPLAIN_2_AFTER_2A
+  if c =ᶜ '/' then (if ignoreComment bits then skipWith else emitWith mComment)
+  else if c =ᶜ '*' then addTo .IN_EXPLAIN_2_AFTER_2A
   else addTo .IN_EXPLAIN_2
 
 /-- "words": a word ends exactly at the first character that cannot be part of a word; the marks come from the keyword
@@ -217,31 +225,31 @@ def inWord (c : Nat) : Op := if isWordEnd c then emitWordBefore else addTo .IN_W
 /-- the rule of each state (`none`: the state is not part of the token grammar and has no transitions) -/
 def rule (bits : Nat) : S → Nat → Option Op
   | .WAIT, c => some (wait bits c)
-  | .AFTER_21, c => some (afterOp [('='.toNat, emitWith mNone)] c)                               -- `!=`
-  | .AFTER_26, c => some (afterOp [('&'.toNat, emitWith mNone)] c)                               -- `&&`
-  | .AFTER_2D, c => some (afterOp [('-'.toNat, addTo .IN_EXPLAIN_1)] c)                          -- `--` comment
-  | .AFTER_2F, c => some (afterOp [('*'.toNat, addTo .IN_EXPLAIN_2)] c)                          -- `/*` comment
-  | .AFTER_3C, c => some (afterOp [('='.toNat, addTo .AFTER_3C_3D), ('>'.toNat, emitWith mNone),   -- `<=`…, `<>`,
-                                   ('<'.toNat, emitWith mNone)] c)                               -- `<<`
-  | .AFTER_3C_3D, c => some (afterOp [('>'.toNat, emitWith mNone)] c)                            -- `<=>`
-  | .AFTER_3E, c => some (afterOp [('='.toNat, emitWith mNone), ('>'.toNat, emitWith mNone)] c)  -- `>=`, `>>`
-  | .AFTER_7C, c => some (afterOp [('|'.toNat, emitWith mNone)] c)                               -- `||`
+  | .AFTER_21, c => some (afterOp [('=', emitWith mNone)] c)                               -- `!=`
+  | .AFTER_26, c => some (afterOp [('&', emitWith mNone)] c)                               -- `&&`
+  | .AFTER_2D, c => some (afterOp [('-', addTo .IN_EXPLAIN_1)] c)                          -- `--` comment
+  | .AFTER_2F, c => some (afterOp [('*', addTo .IN_EXPLAIN_2)] c)                          -- `/*` comment
+  | .AFTER_3C, c => some (afterOp [('=', addTo .AFTER_3C_3D), ('>', emitWith mNone),   -- `<=`…, `<>`,
+                                   ('<', emitWith mNone)] c)                               -- `<<`
+  | .AFTER_3C_3D, c => some (afterOp [('>', emitWith mNone)] c)                            -- `<=>`
+  | .AFTER_3E, c => some (afterOp [('=', emitWith mNone), ('>', emitWith mNone)] c)  -- `>=`, `>>`
+  | .AFTER_7C, c => some (afterOp [('|', emitWith mNone)] c)                               -- `||`
   | .AFTER_0, c => some (afterZero c)
   | .AFTER_B, c => some (afterPrefix .IN_BIT_LITERAL_OF_DOUBLE_QUOTE .IN_BIT_LITERAL_OF_SINGLE_QUOTE c)
   | .AFTER_X, c => some (afterPrefix .IN_HEX_LITERAL_OF_DOUBLE_QUOTE .IN_HEX_LITERAL_OF_SINGLE_QUOTE c)
-  | .IN_HEX_LITERAL_OF_DOUBLE_QUOTE, c => some (inQuotedNum .IN_HEX_LITERAL_OF_DOUBLE_QUOTE '"'.toNat isHexDigit mHex c)
-  | .IN_HEX_LITERAL_OF_SINGLE_QUOTE, c => some (inQuotedNum .IN_HEX_LITERAL_OF_SINGLE_QUOTE '\''.toNat isHexDigit mHex c)
+  | .IN_HEX_LITERAL_OF_DOUBLE_QUOTE, c => some (inQuotedNum .IN_HEX_LITERAL_OF_DOUBLE_QUOTE '"' isHexDigit mHex c)
+  | .IN_HEX_LITERAL_OF_SINGLE_QUOTE, c => some (inQuotedNum .IN_HEX_LITERAL_OF_SINGLE_QUOTE '\'' isHexDigit mHex c)
   | .IN_HEX_LITERAL_AFTER_0X, c => some (inHex0x c)
-  | .IN_BIT_LITERAL_OF_DOUBLE_QUOTE, c => some (inQuotedNum .IN_BIT_LITERAL_OF_DOUBLE_QUOTE '"'.toNat isBit mBit c)
-  | .IN_BIT_LITERAL_OF_SINGLE_QUOTE, c => some (inQuotedNum .IN_BIT_LITERAL_OF_SINGLE_QUOTE '\''.toNat isBit mBit c)
+  | .IN_BIT_LITERAL_OF_DOUBLE_QUOTE, c => some (inQuotedNum .IN_BIT_LITERAL_OF_DOUBLE_QUOTE '"' isBit mBit c)
+  | .IN_BIT_LITERAL_OF_SINGLE_QUOTE, c => some (inQuotedNum .IN_BIT_LITERAL_OF_SINGLE_QUOTE '\'' isBit mBit c)
   | .IN_BIT_LITERAL_AFTER_0B, c => some (inBit0b c)
   | .IN_INT, c => some (inInt c)
   | .IN_FLOAT, c => some (inFloat c)
-  | .IN_DOUBLE_QUOTE, c => some (inString .IN_DOUBLE_QUOTE .IN_DOUBLE_QUOTE_AFTER_22 .IN_DOUBLE_QUOTE_AFTER_5C '"'.toNat c)
-  | .IN_DOUBLE_QUOTE_AFTER_22, c => some (afterQuote .IN_DOUBLE_QUOTE '"'.toNat c)
+  | .IN_DOUBLE_QUOTE, c => some (inString .IN_DOUBLE_QUOTE .IN_DOUBLE_QUOTE_AFTER_22 .IN_DOUBLE_QUOTE_AFTER_5C '"' c)
+  | .IN_DOUBLE_QUOTE_AFTER_22, c => some (afterQuote .IN_DOUBLE_QUOTE '"' c)
   | .IN_DOUBLE_QUOTE_AFTER_5C, _ => some (addTo .IN_DOUBLE_QUOTE)      -- the escaped character, whatever it is
-  | .IN_SINGLE_QUOTE, c => some (inString .IN_SINGLE_QUOTE .IN_SINGLE_QUOTE_AFTER_27 .IN_SINGLE_QUOTE_AFTER_5C '\''.toNat c)
-  | .IN_SINGLE_QUOTE_AFTER_27, c => some (afterQuote .IN_SINGLE_QUOTE '\''.toNat c)
+  | .IN_SINGLE_QUOTE, c => some (inString .IN_SINGLE_QUOTE .IN_SINGLE_QUOTE_AFTER_27 .IN_SINGLE_QUOTE_AFTER_5C '\'' c)
+  | .IN_SINGLE_QUOTE_AFTER_27, c => some (afterQuote .IN_SINGLE_QUOTE '\'' c)
   | .IN_SINGLE_QUOTE_AFTER_5C, _ => some (addTo .IN_SINGLE_QUOTE)
   | .IN_BACK_QUOTE, c => some (inBackQuote c)
   | .IN_EXPLAIN_1, c => some (inLineComment bits c)
@@ -279,69 +287,74 @@ def atEnd (bits : Nat) : S → Option Op
 /-- One family of deviating cells of one state: the (normalised) character codes selected by `sel` (`endCode` = end of
 text), a representative, what the CODE does there, and a one-line judgement. -/
 structure Dev where
-  st : S
   sel : Nat → Bool
   rep : Nat
   op : Option Op
   why : String
 
-def one (c : Char) : Nat → Bool := fun n => n == c.toNat
-def atEndOnly : Nat → Bool := fun n => n == endCode
+def one (ch : Char) : Nat → Bool := fun c => c =ᶜ ch
+def atEndOnly : Nat → Bool := fun c => Nat.beq c endCode
+def notEnd (c : Nat) : Bool := !Nat.beq c endCode
 /-- a character that can be part of a word (letters, `_`, `$`, `@`, `?`, `:`, `\`, `{`, `}`, digits, everything
 non-ASCII) -/
-def isWordChar (c : Nat) : Bool := !isWordEnd c && c != endCode
-
+def isWordChar (c : Nat) : Bool := !isWordEnd c && notEnd c
 /-- a number directly followed by a word character (`stillNumber` = the characters that continue the literal) -/
 def wordCharAfter (stillNumber : Nat → Bool) : Nat → Bool := fun c => isWordChar c && !stillNumber c
 
-/-- The deviating cells.  HARMLESS = within the property's own words; KNOWN = a departure already recorded as a
-finding of the code (kept, not repaired); CANDIDATE = looks like a defect of the code. -/
-def devs : List Dev :=
+/-- `#` opens a comment only between tokens: inside a word or number the code does not stop at it -/
+def hashDev (op : Op) (why : String) : Dev := ⟨one '#', '#'.toNat, some op, why⟩
+
+/-- The deviating cells of each state.  HARMLESS = within the property's own words; KNOWN = a departure already
+recorded as a finding of the code (kept, not repaired); CANDIDATE = looks like a defect of the code. -/
+def devsOf : S → List Dev
   -- strings are LITERAL tokens; the code marks them LITERAL|NAME
-  [ ⟨.IN_DOUBLE_QUOTE_AFTER_22, fun c => c != '"'.toNat && c != endCode, ' '.toNat, some (emitBefore (mString ||| mName)),
-      "HARMLESS a double-quoted string carries NAME besides LITERAL (it may serve as an alias / ANSI identifier): \"a\" b"⟩,
-    ⟨.IN_DOUBLE_QUOTE_AFTER_22, atEndOnly, endCode, some (emitAtEnd (mString ||| mName)),
-      "HARMLESS as above at the end of the text: \"a\""⟩,
-    ⟨.IN_SINGLE_QUOTE_AFTER_27, fun c => c != '\''.toNat && c != endCode, ' '.toNat, some (emitBefore (mString ||| mName)),
-      "HARMLESS a single-quoted string carries NAME besides LITERAL (MySQL accepts it as an alias): 'a' b"⟩,
-    ⟨.IN_SINGLE_QUOTE_AFTER_27, atEndOnly, endCode, some (emitAtEnd (mString ||| mName)),
-      "HARMLESS as above at the end of the text: 'a'"⟩,
-    -- the one-letter words b / x before a point
-    ⟨.AFTER_B, one '.', '.'.toNat, some emitWordBefore,
-      "HARMLESS `b.c`: the one-letter word is looked up in the keyword table instead of being marked NAME directly; B is no keyword, same token"⟩,
-    ⟨.AFTER_X, one '.', '.'.toNat, some emitWordBefore,
-      "HARMLESS `x.c`: as for b"⟩,
-    -- `#` opens a comment only between tokens
-    ⟨.IN_WORD, one '#', '#'.toNat, some (addTo .IN_WORD),
-      "KNOWN `a#b` is one word: # does not end a word"⟩,
-    ⟨.AFTER_B, one '#', '#'.toNat, some (addTo .IN_WORD), "KNOWN `b#c` is one word: # does not end a word"⟩,
-    ⟨.AFTER_X, one '#', '#'.toNat, some (addTo .IN_WORD), "KNOWN `x#c` is one word: # does not end a word"⟩,
-    ⟨.IN_INT, one '#', '#'.toNat, some (addTo .IN_WORD), "KNOWN `1#c` is one NAME word: # does not end a number"⟩,
-    ⟨.AFTER_0, one '#', '#'.toNat, some (addTo .IN_WORD), "KNOWN `0#c` is one NAME word: # does not end a number"⟩,
-    ⟨.IN_FLOAT, one '#', '#'.toNat, some reject, "KNOWN `1.5#c` is rejected: # does not end a number"⟩,
-    ⟨.IN_HEX_LITERAL_AFTER_0X, one '#', '#'.toNat, some reject, "KNOWN `0x1F#c` is rejected: # does not end a number"⟩,
-    ⟨.IN_BIT_LITERAL_AFTER_0B, one '#', '#'.toNat, some reject, "KNOWN `0b01#c` is rejected: # does not end a number"⟩,
-    -- a word character directly after a number: the grammar (maximal munch, no separators required) splits
-    ⟨.IN_INT, wordCharAfter isDigit, 'a'.toNat, some (addTo .IN_WORD),
-      "HARMLESS `1abc` is one NAME word (MySQL identifiers may begin with digits); KNOWN consequence: `1e5` is a NAME word, there is no exponent spelling"⟩,
-    ⟨.AFTER_0, wordCharAfter (fun c => isDigit c || c == 'x'.toNat || c == 'b'.toNat), 'a'.toNat, some (addTo .IN_WORD),
-      "HARMLESS `0abc` is one NAME word, as for `1abc`"⟩,
-    ⟨.IN_FLOAT, wordCharAfter isDigit, 'a'.toNat, some reject,
-      "HARMLESS `1.5a` is rejected rather than split (fails closed); KNOWN consequence: `1.5e3` is rejected, there is no exponent spelling"⟩,
-    ⟨.IN_HEX_LITERAL_AFTER_0X, wordCharAfter isHexDigit, 'g'.toNat, some reject,
-      "HARMLESS `0x1Fg` is rejected rather than split (fails closed)"⟩,
-    ⟨.IN_BIT_LITERAL_AFTER_0B, wordCharAfter isBit, '2'.toNat, some reject,
-      "HARMLESS `0b012` / `0b01a` is rejected rather than split (fails closed)"⟩,
-    -- a second point
-    ⟨.IN_FLOAT, one '.', '.'.toNat, some reject, "HARMLESS `1.2.3` is rejected rather than split into `1.2` `.` `3` (fails closed)"⟩,
-    ⟨.IN_HEX_LITERAL_AFTER_0X, one '.', '.'.toNat, some reject, "CANDIDATE `0x1F.a` is rejected: a point does not end a 0x literal (it ends a word and an integer)"⟩,
-    ⟨.IN_BIT_LITERAL_AFTER_0B, one '.', '.'.toNat, some reject, "CANDIDATE `0b01.a` is rejected: a point does not end a 0b literal"⟩ ]
+  | .IN_DOUBLE_QUOTE_AFTER_22 =>
+    [ ⟨fun c => !(c =ᶜ '"') && notEnd c, ' '.toNat, some (emitBefore (mString ||| mName)),
+        "HARMLESS a double-quoted string carries NAME besides LITERAL (it may serve as an alias / ANSI identifier): \"a\" b"⟩,
+      ⟨atEndOnly, endCode, some (emitAtEnd (mString ||| mName)), "HARMLESS as above at the end of the text: \"a\""⟩ ]
+  | .IN_SINGLE_QUOTE_AFTER_27 =>
+    [ ⟨fun c => !(c =ᶜ '\'') && notEnd c, ' '.toNat, some (emitBefore (mString ||| mName)),
+        "HARMLESS a single-quoted string carries NAME besides LITERAL (MySQL accepts it as an alias): 'a' b"⟩,
+      ⟨atEndOnly, endCode, some (emitAtEnd (mString ||| mName)), "HARMLESS as above at the end of the text: 'a'"⟩ ]
+  -- the one-letter words b / x before a point; `#`
+  | .AFTER_B =>
+    [ ⟨one '.', '.'.toNat, some emitWordBefore,
+        "HARMLESS `b.c`: the one-letter word is looked up in the keyword table instead of being marked NAME directly; B is no keyword, same token"⟩,
+      hashDev (addTo .IN_WORD) "KNOWN `b#c` is one word: # does not end a word" ]
+  | .AFTER_X =>
+    [ ⟨one '.', '.'.toNat, some emitWordBefore, "HARMLESS `x.c`: as for `b.c`"⟩,
+      hashDev (addTo .IN_WORD) "KNOWN `x#c` is one word: # does not end a word" ]
+  | .IN_WORD => [ hashDev (addTo .IN_WORD) "KNOWN `a#b` is one word: # does not end a word" ]
+  -- a word character directly after a number: the grammar (maximal munch, no separator required) splits there
+  | .IN_INT =>
+    [ hashDev (addTo .IN_WORD) "KNOWN `1#c` is one NAME word: # does not end a number",
+      ⟨wordCharAfter isDigit, 'a'.toNat, some (addTo .IN_WORD),
+        "HARMLESS `1abc` is one NAME word (MySQL identifiers may begin with digits); KNOWN consequence: `1e5` is a NAME word, there is no exponent spelling"⟩ ]
+  | .AFTER_0 =>
+    [ hashDev (addTo .IN_WORD) "KNOWN `0#c` is one NAME word: # does not end a number",
+      ⟨wordCharAfter (fun c => isDigit c || c =ᶜ 'x' || c =ᶜ 'b'), 'a'.toNat, some (addTo .IN_WORD),
+        "HARMLESS `0abc` is one NAME word, as for `1abc`"⟩ ]
+  | .IN_FLOAT =>
+    [ hashDev reject "KNOWN `1.5#c` is rejected: # does not end a number",
+      ⟨wordCharAfter isDigit, 'a'.toNat, some reject,
+        "HARMLESS `1.5a` is rejected rather than split (fails closed); KNOWN consequence: `1.5e3` is rejected, there is no exponent spelling"⟩,
+      ⟨one '.', '.'.toNat, some reject, "HARMLESS `1.2.3` is rejected rather than split into `1.2` `.` `3` (fails closed)"⟩ ]
+  | .IN_HEX_LITERAL_AFTER_0X =>
+    [ hashDev reject "KNOWN `0x1F#c` is rejected: # does not end a number",
+      ⟨wordCharAfter isHexDigit, 'g'.toNat, some reject, "HARMLESS `0x1Fg` is rejected rather than split (fails closed)"⟩,
+      ⟨one '.', '.'.toNat, some reject,
+        "CANDIDATE `0x1F.a` is rejected: a point does not end a 0x literal (it ends a word and an integer)"⟩ ]
+  | .IN_BIT_LITERAL_AFTER_0B =>
+    [ hashDev reject "KNOWN `0b01#c` is rejected: # does not end a number",
+      ⟨wordCharAfter isBit, '2'.toNat, some reject, "HARMLESS `0b012` / `0b01a` is rejected rather than split (fails closed)"⟩,
+      ⟨one '.', '.'.toNat, some reject, "CANDIDATE `0b01.a` is rejected: a point does not end a 0b literal"⟩ ]
+  | _ => []
 
 /-- the deviating cells as (state, character code or class representative — `endCode` for the end of the text —,
 description) -/
-def deviations : List (S × Nat × String) := devs.map fun d => (d.st, d.rep, d.why)
+def deviations : List (S × Nat × String) := allS.flatMap fun s => (devsOf s).map fun d => (s, d.rep, d.why)
 
-def devAt (s : S) (c : Nat) : Option Dev := devs.find? fun d => d.st == s && d.sel c
+def devAt (s : S) (c : Nat) : Option Dev := (devsOf s).find? fun d => d.sel c
 
 /-- `cell` overridden by the code's behaviour on exactly the deviating cells -/
 def cellD (bits : Nat) (s : S) (c : Nat) : Option Op :=
@@ -354,6 +367,13 @@ def atEndD (bits : Nat) (s : S) : Option Op :=
   match devAt s endCode with
   | some d => d.op
   | none => atEnd bits s
+
+/-- every listed deviation is a real one: its representative is selected, and there the code's behaviour differs from
+the grammar's (checked by `C05.deviations_real`) -/
+def devsReal : Bool :=
+  allS.all fun s => (devsOf s).all fun d =>
+    d.sel d.rep && (devAt s d.rep).map (·.why) == some d.why &&
+    (if d.rep == endCode then atEnd 7 s != d.op else norm d.rep == d.rep && cell 7 s d.rep != d.op)
 
 /-- Departures of the code from the grammar that are NOT cells of the automaton (the state space has no place for
 them): (input, what happens, what the grammar suggests). -/
@@ -382,30 +402,29 @@ def lex (cfg : Cfg Gen.Cls) (bits : Nat) (raw : List Char) : Except Err (List To
 
 /-! ## Comparison with a generated table (executable; used by the driver command `SPECDIFF` and by the proofs) -/
 
-/-- the table's answer for a character code -/
+/-- the table's answer for a character code (`Cfg.lookup` on codes) -/
 def lookupN (cfg : Cfg Gen.Cls) (s : S) (c : Nat) : Option Op :=
-  match (cfg.rows s).find? (fun e => e.1 == c) with
+  match (cfg.rows s).find? (fun e => Nat.beq e.1 c) with
   | some e => some e.2
   | none => cfg.dflt s
 
-/-- every character code that is a key of some row of the table -/
-def keyCodes (cfg : Cfg Gen.Cls) : List Nat := (allS.flatMap fun s => (cfg.rows s).map (·.1)).eraseDups
+/-- the finite set of character codes on which row `s` of the table and the specification are compared one by one:
+the codes the grammar distinguishes and every further key of that row (today there is none) -/
+def probe (cfg : Cfg Gen.Cls) (s : S) : List Nat :=
+  ascii ++ ((cfg.rows s).map (·.1)).filter (fun k => !isAscii k)
 
-/-- the finite set of character codes on which table and specification are compared one by one: the codes the
-grammar distinguishes, the representative of all others, and every key of the table -/
-def probeCodes (cfg : Cfg Gen.Cls) : List Nat := (ascii ++ other :: keyCodes cfg).eraseDups
-
-/-- the finite part of the agreement: all probe codes, the default rows, the end-of-text rows -/
+/-- the finite part of the agreement: all probe codes of every row, the default rows (compared with the
+specification's answer for "every other character"), the end-of-text rows -/
 def agreeFin (cfg : Cfg Gen.Cls) (bits : Nat) : Bool :=
   allS.all fun s =>
-    ((probeCodes cfg).all fun c => lookupN cfg s c == cellD bits s c) &&
+    ((probe cfg s).all fun c => lookupN cfg s c == cellD bits s c) &&
     cfg.dflt s == cellD bits s other && cfg.atEnd s == atEndD bits s
 
 /-- the cells on which table and specification disagree: (state, code — `other` stands for the default row, `endCode`
 for the end of the text —, table's answer, specification's answer) -/
 def diffCells (cfg : Cfg Gen.Cls) (bits : Nat) : List (S × Nat × Option Op × Option Op) :=
   allS.flatMap fun s =>
-    ((probeCodes cfg).filterMap fun c =>
+    ((probe cfg s).filterMap fun c =>
       if lookupN cfg s c == cellD bits s c then none else some (s, c, lookupN cfg s c, cellD bits s c)) ++
     (if cfg.dflt s == cellD bits s other then [] else [(s, other, cfg.dflt s, cellD bits s other)]) ++
     (if cfg.atEnd s == atEndD bits s then [] else [(s, endCode, cfg.atEnd s, atEndD bits s)])
